@@ -3,7 +3,7 @@
     [Print Assumptions]. *)
 From Coq Require Import List ZArith.
 From Webp Require Import Base.Res Vp8l.Vp8lPixel Vp8l.Vp8lArr Vp8l.Vp8lPrefix Vp8l.Vp8lTransforms Vp8l.Vp8lSpec
-  Vp8l.Vp8lEmit Vp8l.Vp8lInPlace Vp8l.Vp8lKernels Vp8l.Vp8lTables Vp8l.Vp8lCacheDefer.
+  Vp8l.Vp8lCanon Vp8l.Vp8lEmit Vp8l.Vp8lEntropy Vp8l.Vp8lCodeLens Vp8l.Vp8lEmitDecode Vp8l.Vp8lWf Vp8l.Vp8lInPlace Vp8l.Vp8lKernels Vp8l.Vp8lTables Vp8l.Vp8lCacheDefer.
 From WebpGen Require Consts Tables.
 Import ListNotations.
 Open Scope Z_scope.
@@ -59,15 +59,15 @@ Print Assumptions C03_pingpong_inverse_eq.
 
 (** ** LZ77 backward references *)
 
-(** copyBlock32 (memmove / fill / doubling) = the pixel-by-pixel definition: for
-    every element type, every buffer of at most 40 words and every in-range
-    (pos, dist, len).  Partial: the unbounded statement is
-    [copy_block_eq_statement]. *)
-Theorem C03_copy_block_eq_partial : forall (A : Type) (d : A) (data : list A) pos dist len,
-  (length data <= 40)%nat -> (1 <= dist <= pos)%nat -> (pos + len <= length data)%nat ->
+(** copyBlock32 (one memmove when the ranges do not overlap, a fill for distance 1,
+    otherwise the first period followed by doubling) = the pixel-by-pixel
+    definition of the format, for every element type, buffer and in-range
+    (pos, dist, len). *)
+Theorem C03_copy_block_eq : forall (A : Type) (d : A) (data : list A) pos dist len,
+  (1 <= dist <= pos)%nat -> (pos + len <= length data)%nat ->
   copy_block d data pos dist len = copy_fwd d len data pos dist.
-Proof. exact copy_block_eq_bounded. Qed.
-Print Assumptions C03_copy_block_eq_partial.
+Proof. exact (@copy_block_eq). Qed.
+Print Assumptions C03_copy_block_eq.
 
 (** ** Colour cache: the decoder inserts pixels into the cache lazily (cursor
     lastCached; flushes at row ends, after copies, before lookups).  For every
@@ -94,15 +94,29 @@ Theorem C03_read_put_bits : forall n v rest, 0 <= v < 2 ^ Z.of_nat n ->
 Proof. exact read_put_bits. Qed.
 Print Assumptions C03_read_put_bits.
 
-(** Decoding the code word of a symbol (its path in the code tree) returns the
-    symbol and consumes exactly the code word.  Partial with respect to the
-    canonical numbering: that the tree built from a complete length vector assigns
-    the RFC 1951 code values is evaluated on every generated plan (emitter = numeric
-    assignment, decoder = tree), not proved. *)
-Theorem C03_prefix_roundtrip_partial : forall t sym p rest,
-  path_of t sym = Some p -> read_symbol t (p ++ rest) = Ok (sym, rest).
-Proof. exact read_symbol_path. Qed.
-Print Assumptions C03_prefix_roundtrip_partial.
+(** Canonical prefix codes: for every length vector the decoder accepts (one used
+    symbol, or Kraft-complete with lengths <= 15; both simple-code shapes are
+    instances) and every used symbol, decoding the symbol's canonical code word
+    (value = cumulative Kraft weight of the earlier symbols in (length, symbol)
+    order, i.e. the RFC 1951 numbering, most significant bit first) returns the
+    symbol and consumes exactly the code word. *)
+Theorem C03_prefix_roundtrip : forall lens t s rest,
+  tree_of_lens lens = Ok t ->
+  0 <= s < Z.of_nat (length lens) -> nth (Z.to_nat s) lens 0 <> 0 ->
+  read_symbol t (code_bits lens s ++ rest) = Ok (s, rest).
+Proof. exact prefix_roundtrip. Qed.
+Print Assumptions C03_prefix_roundtrip.
+
+Theorem C03_complete_code_accepted : forall lens,
+  lens_in_range lens = true -> kraft_sum lens = 32768 -> exists t, tree_of_lens lens = Ok t.
+Proof. exact tree_of_lens_complete. Qed.
+Print Assumptions C03_complete_code_accepted.
+
+(** the textbook recurrence of the code values: +1, then shift by the length increase *)
+Theorem C03_canonical_recurrence : forall W l1 l2, l1 <= l2 <= 15 -> (wt l1 | W) ->
+  (W + wt l1) / wt l2 = (W / wt l1 + 1) * 2 ^ (l2 - l1).
+Proof. exact codes_step. Qed.
+Print Assumptions C03_canonical_recurrence.
 
 (** ** Ties to the source (regenerated on every run) *)
 
@@ -136,10 +150,64 @@ Theorem C03_format_constants_match_spec :
 Proof. exact format_constants_match_spec. Qed.
 Print Assumptions C03_format_constants_match_spec.
 
-(** ** Emitter / decoder: the full statement is [emit_decode_statement] (not
-    proved; evaluated by the harness on every generated plan); here the instance
-    for a generated plan exercising three transforms, a meta prefix image with
-    several groups, colour cache, cache and copy tokens. *)
-Theorem C03_emit_decode_example : decode (emit ex_plan) = Ok (sem ex_plan).
-Proof. exact emit_decode_example. Qed.
-Print Assumptions C03_emit_decode_example.
+(** ** Emitter / decoder *)
+
+(** Length / distance prefix coding with extra bits. *)
+Theorem C03_lz_roundtrip : forall v rest, 1 <= v ->
+  let '(sym, eb, ev) := lz_prefix v in lz_value sym (putZ eb ev ++ rest) = Ok (v, rest).
+Proof. exact lz_roundtrip. Qed.
+Print Assumptions C03_lz_roundtrip.
+
+(** Transmission of one prefix code (simple codes; code-length code, max_symbol,
+    16/17/18 repeat tokens). *)
+Theorem C03_code_roundtrip : forall alphabet cp t rest,
+  wf_code alphabet cp -> tree_of_lens (code_lens alphabet cp) = Ok t ->
+  read_code alphabet (emit_code cp ++ rest) = Ok (t, rest).
+Proof. exact code_roundtrip. Qed.
+Print Assumptions C03_code_roundtrip.
+
+(** Token level, one prefix-code group with colour cache: literal, cache and copy
+    tokens (plane codes included) decode to the pixels the token list denotes. *)
+Theorem C03_entropy_roundtrip : forall lg lr lb la ld tg tr tb ta td,
+  tree_of_lens lg = Ok tg -> tree_of_lens lr = Ok tr -> tree_of_lens lb = Ok tb ->
+  tree_of_lens la = Ok ta -> tree_of_lens ld = Ok td ->
+  forall cb w total toks h rest,
+  total = w * h -> 0 <= total -> tokens_ok lg lr lb la ld w total 0 toks -> Z.of_nat (length toks) <= total ->
+  decode_pixels (ctx1 tg tr tb ta td cb w) w h
+                (emit_tokens w (fun _ _ => 0) (arr_of_list [gtabs lg lr lb la ld]) toks 0 ++ rest)
+  = Ok (frev (replay cb w toks arr_empty []), rest).
+Proof. exact entropy_roundtrip. Qed.
+Print Assumptions C03_entropy_roundtrip.
+
+(** Token level with a meta prefix image: several prefix-code groups, the group of
+    a token being that of the tile its first pixel lies in. *)
+Theorem C03_entropy_roundtrip_groups : forall gls gs, Forall2 grp_ok gls gs ->
+  forall cb w total mb mw meta, 1 <= w -> forall toks h rest,
+  total = w * h -> 0 <= total -> tokens_ok_m gls w total mb mw meta 0 toks ->
+  decode_pixels (ctxm gs cb w mb mw meta) w h (emit_tokens w (gidx mb mw meta) (tabsm gls) toks 0 ++ rest)
+  = Ok (frev (replay cb w toks arr_empty []), rest).
+Proof. exact entropy_roundtrip_m. Qed.
+Print Assumptions C03_entropy_roundtrip_groups.
+
+(** emit_decode: the specification decoder applied to the emitter's bytes returns
+    the pixels the plan denotes, for every well-formed plan: any transform list
+    (each type at most once, any order, any tile bits / palette size; sub-images
+    with their own cache and codes), with or without a meta prefix image (any
+    number of groups), any colour cache, any mix of simple and normal codes
+    (code-length code, max_symbol, 16/17/18 repeats), any valid token list. *)
+Theorem C03_emit_decode : forall p, wf_plan p -> decode (emit p) = Ok (sem p).
+Proof. exact emit_decode. Qed.
+Print Assumptions C03_emit_decode.
+
+(** [wf_plan] is decided soundly by the boolean checker the harness runs on every
+    plan it generates ... *)
+Theorem C03_emit_decode_checked : forall p, wf_planb p = true -> decode (emit p) = Ok (sem p).
+Proof. exact emit_decode_checked. Qed.
+Print Assumptions C03_emit_decode_checked.
+
+(** ... and is satisfiable non-trivially: a generated plan with three transforms, a
+    meta prefix image with several groups, colour cache, cache and copy tokens,
+    normal codes with repeat tokens. *)
+Theorem C03_wf_plan_example : wf_planb ex_plan = true.
+Proof. exact ex_plan_wf. Qed.
+Print Assumptions C03_wf_plan_example.
